@@ -14,8 +14,8 @@ from vlib import ToolError, log
 CLI_TARGET = os.path.join(vlib.HARNESS, "target-cli")
 CLI_BIN = os.path.join(CLI_TARGET, "release", "cedar")
 WORLD_FILE = os.path.join(vlib.WORK, "C19", "front_world.json")
-CLI_KINDS = {"cliAuthorize": 150, "cliValidate": 40, "cliCheckParse": 60, "cliFormat": 24, "cliTranslatePolicy": 26,
-             "cliTranslateSchema": 16, "cliLink": 40}            # quick-tier quota per CLI operation kind (about 350 runs)
+CLI_KINDS = {"cliAuthorize": 120, "cliValidate": 30, "cliCheckParse": 45, "cliFormat": 16, "cliTranslatePolicy": 26,
+             "cliTranslateSchema": 24, "cliLink": 60}            # quick-tier quota per CLI operation kind (about 320 runs)
 FFI_QUOTA = {"authorize": 300}                                    # quick-tier quota for the FFI kinds that are large
 
 
@@ -113,8 +113,11 @@ def _case(world, c, i):
 
 def _kind_total(world, kind):
     nP, nS, nE, nR = len(world["polSources"]), len(world["schemaSources"]), len(world["entDocs"]), len(world["reqs"])
+    nlink = sum((sum(1 for p in world["polSources"][k - 1]["pols"] if p["template"]) + 2) * (len(world["polSources"][k - 1]["pols"])
+                + (sum(1 for p in world["polSources"][k - 1]["pols"] if p["template"]) if world["polSources"][k - 1]["shape"] == "links" else 0) + 1) * 4
+                for k in (1, 4, 11, 13))
     return {"cliAuthorize": nP * (nS + 1) * 2 * nR * 2 * 2, "cliValidate": nP * nS, "cliCheckParse": (nP + 1) * (nS + 1) * (nE + 1) - 1,
-            "cliFormat": nP * 8, "cliTranslatePolicy": nP * 2, "cliTranslateSchema": nS * 2, "cliLink": 4 * 6 * 6 * 4,
+            "cliFormat": nP * 8, "cliTranslatePolicy": nP * 2, "cliTranslateSchema": nS * 3, "cliLink": nlink,
             "authorize": nP * (nS + 1) * 2 * nR}.get(kind, 1)
 
 
@@ -219,6 +222,22 @@ def _front_canary(traces, wd):
     return len(planted)
 
 
+def case_of_event(ev):
+    """./check C19 --replay: a Front event is re-run as its (id, op) case against the world of the last run"""
+    if ev.get("ev") == "Front":
+        build_cli()
+        return dict(id=ev.get("id", 0), op=ev["op"])
+    return ev.get("case", ev)
+
+
+def family_of_event(ev):
+    return "front" if ev.get("ev") == "Front" else "ffi"
+
+
+def trace_module_of_event(ev):
+    return "Trace_Front.tla" if ev.get("ev") == "Front" else "Trace_Ffi.tla"
+
+
 _OTHER_WORLD = [None]
 
 
@@ -239,15 +258,26 @@ def extra_traces(prev):
         fam["_world"] = front_world
         cases = list(_CLI_CASES)
         del _CLI_CASES[:]
-        front = [os.path.join(wd, "mc_front.trace.ndjson")]
-        if cases:
+        front = os.path.join(wd, "mc_front.trace.ndjson")
+        cov = fam.setdefault("extra_coverage", {})
+        if cases and os.path.exists(front):
             t0 = time.time()
             tpath = _run_cli_cases(cases, wd)
             log("cedar CLI: %d runs in %.1fs" % (len(cases), time.time() - t0))
-            out.append((tpath, "G:mc_front_cli", "Trace_Front.tla"))
-            front.append(tpath)
-        if os.path.exists(front[0]):
-            fam.setdefault("extra_coverage", {})["front_canaries_rejected"] = _front_canary(front, wd)
+            # one trace for the family (the runner validates the file after this hook): FFI events, then the CLI runs
+            with open(front, "a") as f, open(tpath) as g:
+                f.write(g.read())
+            os.remove(tpath)
+            cov["front_cli_runs"] = len(cases)
+        if os.path.exists(front):
+            ops = {}
+            with open(front) as f:
+                for line in f:
+                    if line.strip():
+                        k = (json.loads(line).get("op") or ["-"])[0]
+                        ops[k] = ops.get(k, 0) + 1
+            cov["front_events_per_operation"] = ops
+            cov["front_canaries_rejected"] = _front_canary([front], wd)
         return out
     return f
 
